@@ -8,7 +8,8 @@ C03, complements on the textbook side (`PP/Spec/Ate.lean`):
 * the values of the omitted vertical lines lie in the subfield `Fq6` (`vertical_mem_Fq6`);
 * a tangent or chord line never vanishes at a point `P` with `y_P ≠ 0` (`tangentAt_ne_zero`,
   `chordAt_ne_zero`), hence `textbookMiller P Q ≠ 0` (`textbookMiller_ne_zero`);
-* `E(Fq)` has no point with `y = 0`: `-4` is not a cube in `Fq` (`g1_y_ne_zero`).
+* `E(Fq)` has no point with `y = 0`: `-4` is not a cube in `Fq` (`g1_y_ne_zero`);
+* `finalExponentiation (conj (c · m)) = (conj m)^(3(q¹²-1)/r)` for unitish `c` (`fe_conjugate_unitish_mul`).
 -/
 import PP.Proofs.Lines
 
@@ -158,6 +159,34 @@ theorem g1_y_ne_zero {p : Aff Fq} (hp : Aff.OnCurve g1Codec.b p) (hpi : p.infini
   · rw [hpi] at h; cases h
   · rw [g1Codec_b, hy] at h
     exact neg_four_not_cube p.x (by linear_combination -h)
+
+/-! ## the final exponentiation of `conj(c · m)`, `c` unitish -/
+
+/-- the conjugate of a unitish factor is killed by the final exponentiation as well -/
+theorem Unitish.fe_conjugate {c : Fq12} (hc : Unitish c) :
+    finalExponentiation (Fq12.conjugate c) = some 1 := by
+  have h1 : c ^ (3 * (Gen.q ^ 12 - 1) / Gen.r) = 1 :=
+    Option.some.inj ((FinalExp.fe_spec hc.ne_zero).symm.trans hc.fe)
+  have hne : Fq12.conjugate c ≠ 0 := fun h =>
+    hc.ne_zero (by rw [← Fq12.conjugate_conjugate c, h, Fq12.conjugate_zero])
+  rw [FinalExp.fe_spec hne]
+  have : Fq12.conjugate c ^ (3 * (Gen.q ^ 12 - 1) / Gen.r) =
+      Fq12.conjugate (c ^ (3 * (Gen.q ^ 12 - 1) / Gen.r)) :=
+    (map_pow Fq12.conjugateEquiv c _).symm
+  rw [this, h1, Fq12.conjugate_one]
+
+/-- final exponentiation of `conj(c · m)`, `c` unitish: the factor disappears; failure exactly for
+    `m = 0` -/
+theorem fe_conjugate_unitish_mul {c : Fq12} (hc : Unitish c) (m : Fq12) :
+    finalExponentiation (Fq12.conjugate (c * m)) =
+      if m = 0 then none else some (Fq12.conjugate m ^ finalExponent) := by
+  split
+  · next h => rw [h, mul_zero, Fq12.conjugate_zero]; exact FinalExp.fe_zero
+  · next h =>
+    have hne : Fq12.conjugate m ≠ 0 := fun h0 =>
+      h (by rw [← Fq12.conjugate_conjugate m, h0, Fq12.conjugate_zero])
+    rw [Fq12.conjugate_mul, FinalExp.fe_mul_all, hc.fe_conjugate, FinalExp.fe_spec hne]
+    simp [finalExponent]
 
 end Lines
 end PP
